@@ -84,3 +84,10 @@ Theorem C12_exec_every_input_has_a_real_counterpart : forall (sh:@sheet Q) (inp:
   { sh' : @sheet R & SV_o_Costs_o_sheet_R Q R QR sh sh' } * { inp' : @inputs R & SV_o_Costs_o_inputs_R Q R QR inp inp' }.
 Proof. intros sh inp. exact (sheet_total sh, inputs_total inp). Qed.
 Print Assumptions C12_exec_every_input_has_a_real_counterpart.
+From SV Require Import ExecProps.
+(* the executable find_prices itself classifies by the 100 000 kWh/a boundary *)
+Theorem C12_exec_tariff_class : forall tbl (sh:@sheet Q) ft util e,
+  let f := snd (@find_prices Q (QNum tbl) sh ft util e) in
+  (ft = Some RLM -> f = RLM) /\ (ft <> Some RLM -> (f = SLP <-> (-(100000) <= e)%Q /\ (e <= 100000)%Q)).
+Proof. exact tariff_class_exec. Qed.
+Print Assumptions C12_exec_tariff_class.
